@@ -153,10 +153,23 @@ FOREIGN = ["NetBSD9.3/x86_32/wtmpx", "NetBSD9.3/x86_32/utmpx", "NetBSD9.3/x86_64
            "CentOS9/x86_64/pacct", "Debian11/armv6l_ARMv6/pacct", "OpenSUSE15/wtmp", "FreeBSD14.0/x86_64/utx.log"]
 
 
+FOREIGN_MEASURABLE = ["NetBSD9.3/x86_32/wtmpx", "NetBSD9.3/x86_32/utmpx", "NetBSD9.3/x86_64/wtmpx", "NetBSD9.3/x86_64/utmpx", "NetBSD9.3/x86_32/acct",
+                      "NetBSD9.3/x86_32/wtmp", "NetBSD9.3/x86_64/wtmp", "OpenBSD7.2/x86_32/wtmp", "OpenBSD7.4/x86_64/wtmp", "Ubuntu16/x86_32/wtmp",
+                      "Debian11/armv6l_ARMv6/wtmp", "Debian11/aarch64_ARM64/wtmp", "Debian13/RISC-V/wtmp", "CentOS7/x86_64/wtmp",
+                      "CentOS9/x86_64/pacct", "Debian11/armv6l_ARMv6/pacct", "OpenSUSE15/wtmp"]
+
+
 def foreign_layouts(sc, rep, rng, tier, windowed=False):
     import math
     done = []
-    for si, rel in enumerate(FOREIGN):
+    done_names = set()
+    for si, rel in enumerate(FOREIGN + [None]):
+        if rel is None:
+            # (samples that go through on the unchanged tree: one that no longer does has stopped being examined)
+            for miss in sorted(set(FOREIGN_MEASURABLE) - done_names):
+                if os.path.exists(os.path.join(common.REPO, "logs", miss)) and os.path.getsize(os.path.join(common.REPO, "logs", miss)) > 0:
+                    rep.note_drift("foreign-layout sample %s could not be re-timed and examined (layout not located, or its control run did not print)" % miss)
+            break
         src = os.path.join(common.REPO, "logs", rel)
         if not os.path.exists(src) or os.path.getsize(src) == 0:
             continue
@@ -269,6 +282,7 @@ def foreign_layouts(sc, rep, rng, tier, windowed=False):
                 if rw.crashed or gotw != wantw:
                     rep.violation("foreign:window", "%s re-timed, window [%s, %s]: printed %s, the window holds %s (rc=%s)" % (rel, a, b, gotw, wantw, rw.rc),
                                   dict(rec, after=a, before=b))
+        done_names.add(rel)
         done.append({"sample": rel, "record_size": recsz, "seconds_at": o_s, "microseconds_at": o_u, "records": k, "windows": nwin, "text_fields_checked": nfields})
     return done
 
